@@ -707,6 +707,12 @@ func c13CheckerCase(c *core.Ctx, part, parts int) {
 					ck[f.name] = struct{}{}
 				}
 			}
+			if mask == 0 && vi%2 == 1 {
+				// the empty selection spelled as a never-allocated map: a checker that selects nothing
+				var none boltz.MapFieldChecker
+				ck = none
+				c.Count("nil_map_checker_runs", 1)
+			}
 			mk := func(b *boltz.TypedBucket, checker boltz.FieldChecker) *boltz.PersistContext {
 				return &boltz.PersistContext{MutateContext: boltz.NewTxMutateContext(context.Background(), b.Tx()), Id: "ent", Bucket: b, FieldChecker: checker}
 			}
